@@ -243,6 +243,12 @@ def run_shard(ctx):
             continue
         sv = o.result._survey
         xs = []
+        # what convert() hands back (the JSON form in ConvertResult._pyxform) must not share objects with the library's own tables
+        ctx.ctr("results_scanned_for_aliasing")
+        al = hooks.aliased_module_tables(getattr(o.result, "_pyxform", None))
+        if al:
+            ctx.viol(f"residue:result-aliases-module-table:{al[0].split('[')[0]}", f"{cid}: ConvertResult._pyxform contains the very object {al[:3]} of the library: editing the result edits every later conversion",
+                     common.witness(form, case=cid, history="identity scan of the result"))
         import json as _json
         try:
             dump_after_first = _json.dumps(sv.to_json_dict(), sort_keys=True, default=str)
